@@ -1,6 +1,6 @@
 /-
 Helper lemmas for C04 over RqModel/Model/SnapSM.lean: the chain invariant and its preservation
-(code level 2 = current source).
+(code level 3 = current source).
 -/
 import RqModel.Model.SnapSM
 set_option linter.unusedSimpArgs false
@@ -17,7 +17,7 @@ structure ChainInv (s : SM) : Prop where
   resolves : (resolve s.snaps).isSome
   staged : s.fullNeeded = false → s.modified = false → s.snaps ≠ [] →
     s.staged.foldl applySeg (resolve s.snaps) = some s.file
-  pendFull : ∀ c n cm, s.pend = some (.full c n cm) →
+  pendFull : ∀ c n cm g, s.pend = some (.full c n cm g) →
     s.fullNeeded = true ∧ n ≤ s.tail.length ∧ replay (some c) (s.tail.drop n) = some s.db ∧
     s.staged = [] ∧ (s.modified = false → s.file = c)
   pendInc : ∀ n cm, s.pend = some (.inc n cm) →
@@ -59,22 +59,22 @@ theorem fileAfter_noLoad (r : C) (es : List Entry) (h : hasLoad es = false) : fi
     | load c => simp [hasLoad] at h
 
 theorem chainInv_init : ChainInv {} :=
-  ⟨rfl, rfl, fun _ _ h => absurd rfl h, (fun _ _ _ h => by cases h), (fun _ _ h => by cases h)⟩
+  ⟨rfl, rfl, fun _ _ h => absurd rfl h, (fun _ _ _ _ h => by cases h), (fun _ _ h => by cases h)⟩
 
 /-- a full snapshot of the current database just installed, nothing staged, nothing pending -/
-theorem chainInv_full_installed (s : SM) (c : C) (fn md : Bool) (cmds ap) :
-    ChainInv { s with db := c, file := c, staged := [], snaps := s.snaps ++ [.full c], fullNeeded := fn, modified := md, pend := none, tail := [], cmds := cmds, applied := ap } where
+theorem chainInv_full_installed (s : SM) (c : C) (fn md : Bool) (cmds ap) (gn : Nat) :
+    ChainInv { s with db := c, file := c, staged := [], snaps := s.snaps ++ [.full c], fullNeeded := fn, gen := gn, modified := md, pend := none, tail := [], cmds := cmds, applied := ap } where
   restore := by simp [resolve_snoc, resolveStep, replay]
   resolves := by simp [resolve_snoc, resolveStep]
   staged _ _ _ := by simp [resolve_snoc, resolveStep]
-  pendFull _ _ _ h := by cases h
+  pendFull _ _ _ _ h := by cases h
   pendInc _ _ h := by cases h
 
 /-- an applied entry -/
-theorem apply_inv (s : SM) (h : ChainInv s) (e : Entry) (d' : C) (f' : C) (fn md : Bool) (cm ap)
+theorem apply_inv (s : SM) (h : ChainInv s) (e : Entry) (d' : C) (f' : C) (fn md : Bool) (cm ap) (gn : Nat)
     (hd : applyEntry (some s.db) e = some d')
     (hkeep : (fn = s.fullNeeded ∧ md = s.modified ∧ f' = s.file) ∨ (fn = true ∧ md = true)) :
-    ChainInv { s with db := d', file := f', fullNeeded := fn, modified := md, tail := s.tail ++ [e], cmds := cm, applied := ap } := by
+    ChainInv { s with db := d', file := f', fullNeeded := fn, gen := gn, modified := md, tail := s.tail ++ [e], cmds := cm, applied := ap } := by
   have hrep : ∀ (x : Option C) (n : Nat), n ≤ s.tail.length → replay x (s.tail.drop n) = some s.db →
       replay x ((s.tail ++ [e]).drop n) = some d' := by
     intro x n hn hx
@@ -86,8 +86,8 @@ theorem apply_inv (s : SM) (h : ChainInv s) (e : Entry) (d' : C) (f' : C) (fn md
     · simp only at hf hm hne ⊢
       rw [h3]; exact h.staged (h1 ▸ hf) (h2 ▸ hm) hne
     · simp only at hf; rw [h1] at hf; cases hf
-  · intro c n cm' hp
-    obtain ⟨a1, a2, a3, a4, a5⟩ := h.pendFull c n cm' hp
+  · intro c n cm' g hp
+    obtain ⟨a1, a2, a3, a4, a5⟩ := h.pendFull c n cm' g hp
     refine ⟨?_, by simp only [List.length_append]; omega, hrep _ n a2 a3, a4, ?_⟩
     · rcases hkeep with ⟨h1, _, _⟩ | ⟨h1, _⟩
       · simp only; rw [h1]; exact a1
@@ -106,7 +106,7 @@ theorem apply_inv (s : SM) (h : ChainInv s) (e : Entry) (d' : C) (f' : C) (fn md
       exact ⟨h2 ▸ b1, h3 ▸ b2⟩
     · simp only at hf; rw [h1] at hf; cases hf
 
-theorem snapBegin_inv (s : SM) (h : ChainInv s) : ChainInv (snapBegin 2 s).1 := by
+theorem snapBegin_inv (s : SM) (h : ChainInv s) : ChainInv (snapBegin 3 s).1 := by
   unfold snapBegin
   split
   · exact h
@@ -117,11 +117,12 @@ theorem snapBegin_inv (s : SM) (h : ChainInv s) : ChainInv (snapBegin 2 s).1 := 
       | some p => simp [hs] at hp
     split
     · -- full
-      simp only [ge_iff_le, Nat.le_refl, if_true]
+      have h32 : (3 : Nat) ≥ 2 := by decide
+      simp only [h32, if_true]
       refine ⟨h.restore, h.resolves, (fun hf => by cases hf), ?_, (fun _ _ hp' => by cases hp')⟩
-      intro c n cm hp'
+      intro c n cm g hp'
       simp only [Option.some.injEq, Pend.full.injEq] at hp'
-      obtain ⟨rfl, rfl, rfl⟩ := hp'
+      obtain ⟨rfl, rfl, rfl, rfl⟩ := hp'
       exact ⟨rfl, Nat.le_refl _, by simp [replay], rfl, fun _ => rfl⟩
     · rename_i hdue
       have hdue' : s.fullNeeded = false ∧ s.snaps ≠ [] ∧ s.modified = false := by
@@ -133,31 +134,32 @@ theorem snapBegin_inv (s : SM) (h : ChainInv s) : ChainInv (snapBegin 2 s).1 := 
       · exact h
       · have hnew : (s.staged ++ [(⟨s.file, s.db⟩ : Seg)]).foldl applySeg (resolve s.snaps) = some s.db := by
           rw [foldl_applySeg_snoc, hst]; simp [applySeg]
-        refine ⟨h.restore, h.resolves, fun _ _ _ => hnew, (fun _ _ _ hp' => by cases hp'), ?_⟩
+        refine ⟨h.restore, h.resolves, fun _ _ _ => hnew, (fun _ _ _ _ hp' => by cases hp'), ?_⟩
         intro n cm hp'
         simp only [Option.some.injEq, Pend.inc.injEq] at hp'
         obtain ⟨rfl, rfl⟩ := hp'
         exact ⟨Nat.le_refl _, hdue'.2.1, by simp [hnew, replay], fun _ => ⟨hdue'.2.2, hnew⟩⟩
 
-theorem snapEnd_inv (s : SM) (h : ChainInv s) (o : Outcome) : ChainInv (snapEnd s o).1 := by
+theorem snapEnd_inv (s : SM) (h : ChainInv s) (o : Outcome) : ChainInv (snapEnd 3 s o).1 := by
   unfold snapEnd
   cases hp : s.pend with
   | none => exact h
   | some p =>
     cases p with
-    | full c n cm =>
-      obtain ⟨a1, a2, a3, a4, a5⟩ := h.pendFull c n cm hp
+    | full c n cm g =>
+      obtain ⟨a1, a2, a3, a4, a5⟩ := h.pendFull c n cm g hp
       have keep : ChainInv { s with pend := none } :=
         ⟨h.restore, h.resolves, (fun hf => by simp only at hf; rw [a1] at hf; cases hf),
-          (fun _ _ _ hp' => by cases hp'), (fun _ _ hp' => by cases hp')⟩
+          (fun _ _ _ _ hp' => by cases hp'), (fun _ _ hp' => by cases hp')⟩
       cases o with
       | ok =>
-        simp only
-        refine ⟨?_, ?_, ?_, (fun _ _ _ hp' => by cases hp'), (fun _ _ hp' => by cases hp')⟩
+        have h33 : (3 : Nat) ≥ 3 := by decide
+        simp only [h33, if_true]
+        refine ⟨?_, ?_, ?_, (fun _ _ _ _ hp' => by cases hp'), (fun _ _ hp' => by cases hp')⟩
         · simp [resolve_snoc, resolveStep, a3]
         · simp [resolve_snoc, resolveStep]
-        · intro _ hm _
-          simp only at hm ⊢
+        · intro hf hm _
+          simp only at hm hf ⊢
           simp [resolve_snoc, resolveStep, a4, a5 hm]
       | notInvoked => exact keep
       | failBefore => exact keep
@@ -165,20 +167,16 @@ theorem snapEnd_inv (s : SM) (h : ChainInv s) (o : Outcome) : ChainInv (snapEnd 
     | inc n cm =>
       obtain ⟨a1, a2, a3, a4⟩ := h.pendInc n cm hp
       have keep : ChainInv { s with pend := none } :=
-        ⟨h.restore, h.resolves, h.staged, (fun _ _ _ hp' => by cases hp'), (fun _ _ hp' => by cases hp')⟩
+        ⟨h.restore, h.resolves, h.staged, (fun _ _ _ _ hp' => by cases hp'), (fun _ _ hp' => by cases hp')⟩
       cases o with
       | ok =>
         simp only
-        cases hf : s.fullNeeded with
-        | true =>
-          simp only [if_true]
-          have : ({ s with pend := none } : SM) = { db := s.db, file := s.file, staged := s.staged, snaps := s.snaps, fullNeeded := true, modified := s.modified, pend := none, tail := s.tail, cmds := s.cmds, applied := s.applied } := by
-            rw [← hf]
-          rw [← this]; exact keep
-        | false =>
-          simp only [Bool.false_eq_true, if_false]
+        split
+        · exact keep
+        · rename_i hfn
+          have hf : s.fullNeeded = false := by simpa using hfn
           obtain ⟨b1, b2⟩ := a4 hf
-          refine ⟨?_, ?_, ?_, (fun _ _ _ hp' => by cases hp'), (fun _ _ hp' => by cases hp')⟩
+          refine ⟨?_, ?_, ?_, (fun _ _ _ _ hp' => by cases hp'), (fun _ _ hp' => by cases hp')⟩
           · simp [resolve_snoc, resolveStep, a3]
           · simp [resolve_snoc, resolveStep, b2]
           · intro _ _ _
@@ -187,28 +185,28 @@ theorem snapEnd_inv (s : SM) (h : ChainInv s) (o : Outcome) : ChainInv (snapEnd 
       | failBefore => exact keep
       | failAfter =>
         simp only
-        exact ⟨h.restore, h.resolves, (fun hf => by cases hf), (fun _ _ _ hp' => by cases hp'), (fun _ _ hp' => by cases hp')⟩
+        exact ⟨h.restore, h.resolves, (fun hf => by cases hf), (fun _ _ _ _ hp' => by cases hp'), (fun _ _ hp' => by cases hp')⟩
 
-theorem snapshot_inv (s : SM) (h : ChainInv s) (o : Outcome) : ChainInv (snapshot 2 s o).1 := by
+theorem snapshot_inv (s : SM) (h : ChainInv s) (o : Outcome) : ChainInv (snapshot 3 s o).1 := by
   unfold snapshot
   split
   · exact h
   · have hb := snapBegin_inv s h
-    cases hsb : snapBegin 2 s with
+    cases hsb : snapBegin 3 s with
     | mk s1 k =>
       rw [hsb] at hb
       simp only
       split
       · have he := snapEnd_inv s1 hb o
-        cases hse : snapEnd s1 o with
+        cases hse : snapEnd 3 s1 o with
         | mk s2 r => rw [hse] at he; exact he
       · exact hb
 
-theorem step_inv (s : SM) (h : ChainInv s) (op : Op) : ChainInv (step 2 s op).1 := by
+theorem step_inv (s : SM) (h : ChainInv s) (op : Op) : ChainInv (step 3 s op).1 := by
   cases op with
   | write w =>
     simp only [step]
-    exact apply_inv s h (.write w) _ s.file s.fullNeeded s.modified _ _ rfl (Or.inl ⟨rfl, rfl, rfl⟩)
+    exact apply_inv s h (.write w) _ s.file s.fullNeeded s.modified _ _ s.gen rfl (Or.inl ⟨rfl, rfl, rfl⟩)
   | noop =>
     simp only [step]
     exact ⟨h.restore, h.resolves, h.staged, h.pendFull, h.pendInc⟩
@@ -217,7 +215,7 @@ theorem step_inv (s : SM) (h : ChainInv s) (op : Op) : ChainInv (step 2 s op).1 
   | snapshot o => exact snapshot_inv s h o
   | load c =>
     simp only [step]
-    exact apply_inv s h (.load c) c c true true _ _ rfl (Or.inr ⟨rfl, rfl⟩)
+    exact apply_inv s h (.load c) c c true true _ _ (s.gen + 1) rfl (Or.inr ⟨rfl, rfl⟩)
   | boot c =>
     simp only [step]
     split
@@ -228,11 +226,11 @@ theorem step_inv (s : SM) (h : ChainInv s) (op : Op) : ChainInv (step 2 s op).1 
         | none => rfl
         | some p => simp [hs] at hp
       -- swap, flag, then a full snapshot captured and installed at once
-      have hs : (snapshot 2 { s with db := c, file := c, fullNeeded := true, modified := true, cmds := s.cmds + 1, applied := true } .ok).1
-          = { s with db := c, file := c, staged := [], snaps := s.snaps ++ [.full c], fullNeeded := false, modified := false, pend := none, tail := s.tail.drop s.tail.length, cmds := s.cmds + 1 - (s.cmds + 1), applied := true } := by
+      have hs : (snapshot 3 { s with db := c, file := c, fullNeeded := true, gen := s.gen + 1, modified := true, cmds := s.cmds + 1, applied := true } .ok).1
+          = { s with db := c, file := c, staged := [], snaps := s.snaps ++ [.full c], fullNeeded := false, gen := s.gen + 1 + 1, modified := false, pend := none, tail := s.tail.drop s.tail.length, cmds := s.cmds + 1 - (s.cmds + 1), applied := true } := by
         simp [snapshot, snapBegin, snapEnd, fullDue, hpn]
       rw [hs]
-      have := chainInv_full_installed s c false false (s.cmds + 1 - (s.cmds + 1)) true
+      have := chainInv_full_installed s c false false (s.cmds + 1 - (s.cmds + 1)) true (s.gen + 1 + 1)
       simpa using this
   | install c =>
     simp only [step]
@@ -243,9 +241,9 @@ theorem step_inv (s : SM) (h : ChainInv s) (op : Op) : ChainInv (step 2 s op).1 
         cases hs : s.pend with
         | none => rfl
         | some p => simp [hs] at hp
-      have h21 : (2 : Nat) ≥ 1 := by decide
+      have h21 : (3 : Nat) ≥ 1 := by decide
       simp only [h21, if_true]
-      have := chainInv_full_installed s c false false 0 s.applied
+      have := chainInv_full_installed s c false false 0 s.applied s.gen
       simpa [hpn] using this
   | reap =>
     simp only [step]
@@ -281,12 +279,12 @@ theorem step_inv (s : SM) (h : ChainInv s) (op : Op) : ChainInv (step 2 s op).1 
       have hre := h.restore
       rw [hr] at hre
       simp only [hre]
-      refine ⟨by simpa [hr] using hre, by simp [hr], ?_, (fun _ _ _ hp' => by cases hp'), (fun _ _ hp' => by cases hp')⟩
+      refine ⟨by simpa [hr] using hre, by simp [hr], ?_, (fun _ _ _ _ hp' => by cases hp'), (fun _ _ hp' => by cases hp')⟩
       intro hf _ _
       simp only [Bool.or_eq_false_iff] at hf
       simp [hr, fileAfter_noLoad r s.tail hf.2]
 
-theorem run_inv (ops : List Op) : ∀ (s : SM), ChainInv s → ChainInv (run 2 s ops) := by
+theorem run_inv (ops : List Op) : ∀ (s : SM), ChainInv s → ChainInv (run 3 s ops) := by
   induction ops with
   | nil => intro s h; exact h
   | cons o os ih => intro s h; exact ih _ (step_inv s h o)
